@@ -35,6 +35,13 @@ static opus_int32 verif_encode_frame_native(OpusEncoder *st, const opus_res *pcm
    __CPROVER_assert(frame_size == st->Fs / 400 || frame_size == st->Fs / 200 || frame_size == st->Fs / 100 || frame_size == st->Fs / 50 ||
                     (st->mode == MODE_SILK_ONLY && (frame_size == st->Fs / 25 || frame_size == 3 * st->Fs / 50)), "frame coder gets a frame size its mode can code");
    __CPROVER_assert(MODE_OK(st->mode) && BW_OK(bw) && (st->stream_channels == 1 || st->stream_channels == 2) && st->stream_channels <= st->channels, "decided mode, bandwidth and channels are valid");
+   /* FRAME_CODER_PRE (assumed by the frame-coder groups), conjunct by conjunct so that a refutation names the clause */
+   __CPROVER_assert((frame_size >= st->Fs / 100 || st->mode == MODE_CELT_ONLY), "FRAME_CODER_PRE: frames below 10 ms reach the frame coder in MDCT-only mode");
+   __CPROVER_assert(max_data_bytes >= 1, "FRAME_CODER_PRE: byte budget at least 1");
+   __CPROVER_assert(max_data_bytes <= 1276 || frame_size != verif_req_frame_size, "byte budget of a single-frame packet at most 1276");
+   __CPROVER_assert(max_data_bytes <= 4000, "FRAME_CODER_PRE: byte budget bounded by the caller's buffer");
+   __CPROVER_assert(st->bitrate_bps >= 1, "FRAME_CODER_PRE: resolved bitrate is positive");
+   __CPROVER_assert((long long)st->bitrate_bps * frame_size <= 2147483647LL, "FRAME_CODER_PRE: bitrate x frame size fits 32 bits (the frame coder multiplies them in int)");
    __CPROVER_assert(FRAME_CODER_PRE(st, frame_size, max_data_bytes), "everything the frame coder relies on (FRAME_CODER_PRE: assumed by the frame-coder groups) holds at the call");
    __CPROVER_assert(settings_ok(st) && stream_ok(st), "the state invariant holds when the frame coder is entered");
    /* channels: the forced count, except while a stereo->mono switch is being smoothed */
